@@ -175,12 +175,16 @@ func Populate(dir string, entries map[string]byte) {
 		p := filepath.Join(dir, filepath.FromSlash(k))
 		if entries[k] == 'd' {
 			must(os.MkdirAll(p, 0o755))
-		} else if entries[k] == 'l' || entries[k] == 'L' {
-			// 'l': a symbolic link to an existing directory next to the target; 'L': a dangling one
+		} else if entries[k] == 'l' || entries[k] == 'L' || entries[k] == 'X' {
+			// 'l': a symbolic link to an existing directory next to the target; 'L': a dangling one (to a name inside
+			// the target); 'X': a dangling one that points OUTSIDE the target (to a name next to it)
 			must(os.MkdirAll(filepath.Dir(p), 0o755))
 			to := filepath.Join(filepath.Dir(filepath.Clean(dir)), "sibling")
 			if entries[k] == 'L' {
 				to = filepath.Join(dir, "no-such-entry")
+			}
+			if entries[k] == 'X' {
+				to = filepath.Join(filepath.Dir(filepath.Clean(dir)), "planted-link-destination")
 			}
 			must(os.Symlink(to, p))
 		} else {
